@@ -586,6 +586,12 @@ def f_sink6(d): _sink(d, 6)
 def f_sink7(d): _sink(d, 7)
 
 
+def f_undeclared_prefix_vars(d):
+    """Undeclared path-template variables whose names are PREFIX-related, the longer one first (`{id_type}` before `{id}`)."""
+    op(d, "/lookup/{id_type}/{id}", "get", {"operationId": "lookupById", "tags": ["lookup"], "responses": {"200": jresp(ref("Pet"))}})
+    op(d, "/shelves/{shelf_id}/{shelf}/{s}", "get", {"operationId": "shelfItem", "tags": ["lookup"], "parameters": [{"name": "verbose", "in": "query", "schema": {"type": "boolean"}}], "responses": {"200": jresp(ref("Pet"))}})
+
+
 def f_shared_param_inline(d):
     """A component parameter with an INLINE (promoted) schema referenced from operations on different paths, plus
     path-level parameters declared AFTER the methods of their path item."""
